@@ -15,7 +15,22 @@ Driver for C18.  Operations (one per line; `harness/c18.cpp` implements the same
 * `sp ty x y d`       — `make_spiral_range(pos(x,y), d)` (cap 5000)
 * `nb ty x y`         — `neumann_neighbors`, `moore_neighbors`
 * `itr kind L i j` / `adr kind L` — `iterator::make_range(begin+i, begin+j)` / `adapt_range(container)`; container element k is 3k+1
-* `mirc n`            — `math::int_range_count<n>`
+* `mirc n`            — `math::int_range_count<n>`;  `mir a b` — `math::int_range<a, b>`
+* `iit ty a b` / `iits ty a` — `int_iterator<ty>(a)`, `(b)` used directly: `== !=` (also on the same object), `*`, `it++`, member / free / self `swap`;
+                        `iits`: digest over every `b` of an 8- or 16-bit type
+* `eit n w a b`       — the same for `enum_::iterator` (values `≤ n`)
+* `erd n w b e`       — `enum_::range<E>(b, e)` constructed directly from two `size_type` values
+* `itri ty b e` / `itris ty b` — `iterator::make_range(int_iterator(b), int_iterator(e))` (no clamp)
+* `itrc kind L i j k l` — `operator== / !=` of two `iterator::range`s over one container, `begin()`, `end()`
+* `cycp len f1 s1 i f2 s2 j` — two cyclic iterators at arbitrary positions (outside / at the end of the boundary, empty boundary, different
+                        boundaries): `== != < > <= >=`, `a - b`, the same object on both sides, `get`, `get_boundary`, `->`, member / free / self swap, copy
+* `cycx kind len f s i ops…` — a walk like `cycw` but from an arbitrary position and any boundary `f ≤ s`; needs a margin of `#ops` positions
+* `cycl len f s start sgn k` — `it + k` (`sgn` = `+`) / `it - k` (`-`) for any 64-bit `k` in `ptrdiff_t` arithmetic
+* `cycd kind len i f s` — the default constructor, then assignment
+* `cycc kind len f s i f2 s2 j k` — converting constructor / assignment `cyclic_iterator<iterator>` → `cyclic_iterator<const_iterator>` (into a default-constructed
+                        iterator, over an iterator at `j` with boundary `[f2, s2)`, and with `OtherIterator` = the same type), then `k` steps on the converted iterator
+* `spi ty x y d n`    — `spiral_iterator(pos(x,y), d)` used directly: `n` steps alternating `++it` / `it++`, comparison with `end()`, with an
+                        iterator of another `max_dist`, swap
 -/
 namespace Fcppt.C18.Drv
 open Fcppt.Proto Fcppt.C18
@@ -30,6 +45,8 @@ def tyOf : String → Option (IntTy × Bool)     -- (type, is strong typedef)
   | "i64" => some (⟨true, 64⟩, false) | "u64" => some (⟨false, 64⟩, false)
   | "si8" => some (⟨true, 8⟩, true) | "su8" => some (⟨false, 8⟩, true)
   | "si32" => some (⟨true, 32⟩, true) | "su32" => some (⟨false, 32⟩, true)
+  | "si16" => some (⟨true, 16⟩, true) | "su16" => some (⟨false, 16⟩, true)
+  | "si64" => some (⟨true, 64⟩, true) | "su64" => some (⟨false, 64⟩, true)
   | _ => none
 
 def showInts (l : List Int) : String := if l.isEmpty then "-" else intList l
@@ -52,7 +69,11 @@ def rangeLine (t : IntTy) (strong : Bool) (r : IntRange) : String :=
         | .error _ => "ub"
       else "-"
     | .error _ => "-"
-  s!"{showElems el} size={sz} rs={rs}"
+  -- `range::singular` does not compile for ranges over strong typedefs (`std::next` needs an integral difference_type)
+  let sg := if strong then "-" else match r.singular t with
+    | .ok b => b01 b
+    | .error _ => "ub"
+  s!"{showElems el} size={sz} rs={rs} be={r.begin_}:{r.end_} es={b01 r.empty}{sg}"
 
 def irLine (t : IntTy) (strong : Bool) (b e : Int) : String := rangeLine t strong (makeIntRange b e)
 
@@ -62,7 +83,10 @@ def irsDigest (t : IntTy) (strong : Bool) (b : Int) : String :=
   "D " ++ hex64 h
 
 def enumLine (w : Nat) (r : EnumRange) : String :=
-  s!"{showElems (r.elems w (cap + 1))} size={r.size w}"
+  let sg := match r.singular w with
+    | .ok b => b01 b
+    | .error _ => "ub"
+  s!"{showElems (r.elems w (cap + 1))} size={r.size w} es={b01 r.empty}{sg}"
 
 def val (k : Int) : Int := 3 * k + 1
 
@@ -89,29 +113,110 @@ def cycWalk (randomAccess : Bool) : List String → Cyc → List String → Opti
     | 'm', none => let c' := c.decrement; cycWalk randomAccess ts c' (s!"{c.it}>{c'.it}" :: acc)
     | 'a', some k =>
       if !randomAccess then none else
-      match c.advance k with
+      match c.apply (.adv k) with
       | .ok c' => cycWalk randomAccess ts c' (toString c'.it :: acc)
-      | .error _ => none
+      | .error f => some (f.name :: acc).reverse          -- the walk ends at the fault
     | 's', some k =>
       if !randomAccess then none else
-      match c.advance (-k) with            -- operator-=(d) = *this += -d
+      match c.apply (.sub k) with          -- operator-=(d) = *this += -d
       | .ok c' => cycWalk randomAccess ts c' (toString c'.it :: acc)
-      | .error _ => none
+      | .error f => some (f.name :: acc).reverse
     | 'i', some k =>
       if !randomAccess then none else
       match c.advance k with               -- operator[](d) = *(*this + d)
       | .ok c' => cycWalk randomAccess ts c (s!"v{val c'.it}" :: acc)
-      | .error _ => none
+      | .error f => some (f.name :: acc).reverse
     | _, _ => none
+
+def showCyc (c : Cyc) : String := s!"{c.it}:{c.first}:{c.second}"
+
+def cycpLine (len : Int) (x y : Cyc) : String :=
+  let cmp := b01 (x.equal y) ++ b01 (!x.equal y) ++ b01 (x.lt y) ++ b01 (x.gt y) ++ b01 (x.le y) ++ b01 (x.ge y)
+  let self := b01 (x.equal x) ++ b01 (!x.equal x) ++ b01 (x.lt x) ++ b01 (x.gt x) ++ b01 (x.le x) ++ b01 (x.ge x)
+  let v := if x.it < len then toString (val x.it) else "-"
+  let sw := swapPair (x, y)
+  let fsw := swapPair sw
+  let ssw := (swapPair (x, x)).1
+  let z := y                      -- z{x}; z = y;
+  s!"cmp={cmp} d={y.sub x},{x.sub y} self={self},{x.sub x} get={x.it},{y.it} bnd={x.first}:{x.second},{y.first}:{y.second} val={v} " ++
+  s!"sw={showCyc sw.1},{showCyc sw.2} fsw={showCyc fsw.1},{showCyc fsw.2} ssw={showCyc ssw} cp={showCyc z}/{b01 (z.equal y)}"
+
+def cyccLine (randomAccess : Bool) (x w : Cyc) (k : Int) : String :=
+  let y := Cyc.convert x
+  let z := Cyc.default.assignFrom x
+  let w' := w.assignFrom x
+  let same := (Cyc.default.assignFrom y)          -- operator=<const_iterator>(y) on a const_iterator cyclic iterator
+  -- k steps on the converted iterator: `y += k` on a vector, |k| times ++ / -- on a list
+  let adv : String :=
+    if randomAccess then
+      match y.advance k with
+      | .ok a => toString a.it
+      | .error f => f.name
+    else toString (if k ≥ 0 then iter Cyc.increment k.toNat y else iter Cyc.decrement (-k).toNat y).it
+  -- the source moves on afterwards, the converted copy does not
+  s!"cv={showCyc y} as={showCyc z} ow={showCyc w'} st={showCyc same} eq={b01 (y.equal z)} adv={adv} src={x.increment.it}:{y.it}"
+
+def cyclLine (c : Cyc) (plus : Bool) (k : Int) : String :=
+  match (if plus then c.advance64 k else c.subAssign64 k) with
+  | .ok a => s!"adv={a.it} alt=1"
+  | .error f => f.name
+
+def showIt (n : Nat) (v : Int) : String := if v ≤ n then toString v else "?"
+
+/-- the direct iterator operations; `shw` prints a value (enum iterators cannot show values that are no enumerator) -/
+def iterOpsLine (t : IntTy) (shw : Int → String) (a b : Int) : String :=
+  let post := match IntIter.postIncr t a with
+    | .ok (o, n) => s!"{shw o}>{shw n}"
+    | .error _ => "ub"
+  let sw := swapPair (a, b)
+  let fsw := swapPair sw
+  let ssw := (swapPair (a, a)).1
+  s!"eq={b01 (IntIter.equal a b)} ne={b01 (IntIter.notEqual a b)} self={b01 (IntIter.equal a a)}{b01 (IntIter.notEqual a a)} d={shw a},{shw b} " ++
+  s!"post={post} sw={shw sw.1},{shw sw.2} fsw={shw fsw.1},{shw fsw.2} ssw={shw ssw}"
+
+def iitsDigest (t : IntTy) (a : Int) : String :=
+  let n := (t.hi - t.lo + 1).toNat
+  let h := (List.range n).foldl (fun h (i : Nat) => fnv h (iterOpsLine t toString a (t.lo + (i : Int)))) fnvInit
+  "D " ++ hex64 h
+
+def itriLine (t : IntTy) (b e : Int) : String :=
+  if t.trapping && decide (e < b) then "bad-op" else showElems (intIterRange t b e (cap + 1))
+
+def itrisDigest (t : IntTy) (b : Int) : String :=
+  let n := (t.hi - t.lo + 1).toNat
+  let h := (List.range n).foldl (fun h (i : Nat) => fnv h (itriLine t b (t.lo + (i : Int)))) fnvInit
+  "D " ++ hex64 h
 
 def showPos (p : Pos) : String := s!"{p.x}:{p.y}"
 def showPosList (l : List Pos) : String := if l.isEmpty then "-" else ",".intercalate (l.map showPos)
 
-def spLine (x y d : Int) : String :=
-  match spiralRange ⟨x, y⟩ d (spiralCap + 1) with
+def spLine (t : IntTy) (x y d : Int) : String :=
+  match spiralRangeT t ⟨x, y⟩ d (spiralCap + 1) with
   | .ok l => s!"n={l.length} p={showPosList l}"
   | .error .fuel => "overrun"
   | .error f => f.name
+
+/-- the states after `0 .. n` increments -/
+def spiralStates : Nat → Spiral → List Spiral
+  | 0, s => [s]
+  | n + 1, s => s :: spiralStates n s.increment
+
+def spiLine (x y d : Int) (n : Nat) : String :=
+  let sts := spiralStates n (Spiral.init ⟨x, y⟩ d)
+  let endCur : Pos := ⟨x - 1, y - d⟩
+  -- step k (1-based) is `++it` for odd k and `it++` for even k; the latter shows the returned copy too
+  let steps := (List.range n).map fun k =>
+    let o := (sts.getD k (Spiral.init ⟨x, y⟩ d)).cur
+    let c := (sts.getD (k + 1) (Spiral.init ⟨x, y⟩ d)).cur
+    if (k + 1) % 2 = 1 then showPos c else s!"{showPos o}>{showPos c}"
+  let ends := (List.range (n + 1)).filter fun k => (sts.getD k (Spiral.init ⟨x, y⟩ d)).equal (Spiral.init endCur d)
+  let last := sts.getD n (Spiral.init ⟨x, y⟩ d)
+  let init := Spiral.init ⟨x, y⟩ d
+  let s1 := init.increment
+  let sw := swapPair (init, last)            -- a{init}; a.swap(it): a holds the walked state, it the initial one
+  s!"p={if steps.isEmpty then "-" else ",".intercalate steps} end={if ends.isEmpty then "-" else natList ends} " ++
+  s!"eqd={b01 (init.equal (Spiral.init ⟨x, y⟩ (d + 5)))}{b01 (!(init.equal s1))} " ++
+  s!"sw={showPos sw.1.cur},{showPos sw.2.cur} next={showPos sw.1.increment.cur},{showPos sw.2.increment.cur}"
 
 def nbLine (t : IntTy) (x y : Int) : String :=
   match neumann t ⟨x, y⟩, moore t ⟨x, y⟩ with
@@ -122,15 +227,23 @@ def nbLine (t : IntTy) (x y : Int) : String :=
 def container (L : Nat) : List Int := (List.range L).map (fun (k : Nat) => val (k : Int))
 
 def itrLine (L i j : Nat) : String :=
-  let r := iterMakeRange i j
-  s!"{showElems (r.elems (container L) (cap + 1))} size={r.size}"
+  let r := if (i + j) % 3 = 2 then iterFromPair (i, j) else iterMakeRange i j
+  s!"{showElems (r.elems (container L) (cap + 1))} size={r.size} es={b01 r.empty}{b01 r.singular}"
 
 def adrLine (L : Nat) : String :=
   let c := container L
   let r := adaptRange c
-  s!"{showElems (r.elems c (cap + 1))} size={r.size}"
+  s!"{showElems (r.elems c (cap + 1))} size={r.size} es={b01 r.empty}{b01 r.singular}"
+
+def itrcLine (i j k l : Nat) : String :=
+  let r1 := iterMakeRange i j
+  let r2 := iterMakeRange k l
+  s!"eq={b01 (r1.equal r2)} ne={b01 (r1.notEqual r2)} self={b01 (r1.equal r1)}{b01 (r1.notEqual r1)} be={r1.begin_}:{r1.end_}"
 
 def int? (s : String) : Option Int := s.toInt?
+
+def min3 (a b c : Nat) : Nat := min a (min b c)
+def max3 (a b c : Nat) : Nat := max a (max b c)
 
 def handle (toks : List String) : String :=
   match toks with
@@ -184,8 +297,86 @@ def handle (toks : List String) : String :=
     | _, _, _, _ => "bad-op"
   | ["sp", ty, x, y, d] =>
     match int? x, int? y, int? d with
-    | some x, some y, some d => if ty = "i32" ∨ ty = "i64" then spLine x y d else "bad-op"
+    | some x, some y, some d =>
+      match tyOf ty with
+      | some (t, false) =>
+        if (ty = "i32" ∨ ty = "i64") ∧ t.InRange x ∧ t.InRange y ∧ -10000 ≤ d ∧ d ≤ 10000 then spLine t x y d else "bad-op"
+      | _ => "bad-op"
     | _, _, _ => "bad-op"
+  | ["spi", ty, x, y, d, n] =>
+    match tyOf ty, int? x, int? y, int? d, n.toNat? with
+    | some (t, false), some x, some y, some d, some n =>
+      let lim := t.hi - 20000
+      if (ty = "i32" ∨ ty = "i64") ∧ -lim ≤ x ∧ x ≤ lim ∧ -lim ≤ y ∧ y ≤ lim ∧ -10000 ≤ d ∧ d ≤ 10000 ∧ n ≤ 300 then spiLine x y d n else "bad-op"
+    | _, _, _, _, _ => "bad-op"
+  | ["iit", ty, a, b] =>
+    match tyOf ty, int? a, int? b with
+    | some (t, _), some a, some b => if t.InRange a ∧ t.InRange b then iterOpsLine t toString a b else "bad-op"
+    | _, _, _ => "bad-op"
+  | ["iits", ty, a] =>
+    match tyOf ty, int? a with
+    | some (t, _), some a => if (t.bits = 8 ∨ t.bits = 16) ∧ t.InRange a then iitsDigest t a else "bad-op"
+    | _, _ => "bad-op"
+  | ["eit", n, w, a, b] =>
+    match n.toNat?, w.toNat?, a.toNat?, b.toNat? with
+    | some n, some w, some a, some b =>
+      if 0 < n ∧ n ≤ 2 ^ w ∧ a ≤ n ∧ b ≤ n ∧ a < 2 ^ w ∧ b < 2 ^ w then iterOpsLine (sizeTy w) (showIt n) a b else "bad-op"
+    | _, _, _, _ => "bad-op"
+  | ["erd", n, w, b, e] =>
+    match n.toNat?, w.toNat?, b.toNat?, e.toNat? with
+    | some n, some w, some b, some e =>
+      if 0 < n ∧ n ≤ 2 ^ w ∧ b < 2 ^ w ∧ e < 2 ^ w then enumLine w ⟨b, e⟩ else "bad-op"
+    | _, _, _, _ => "bad-op"
+  | ["itri", ty, b, e] =>
+    match tyOf ty, int? b, int? e with
+    | some (t, _), some b, some e => if t.InRange b ∧ t.InRange e then itriLine t b e else "bad-op"
+    | _, _, _ => "bad-op"
+  | ["itris", ty, b] =>
+    match tyOf ty, int? b with
+    | some (t, _), some b => if (t.bits = 8 ∨ t.bits = 16) ∧ t.InRange b then itrisDigest t b else "bad-op"
+    | _, _ => "bad-op"
+  | ["itrc", kind, l, i, j, k, m] =>
+    match l.toNat?, i.toNat?, j.toNat?, k.toNat?, m.toNat? with
+    | some l, some i, some j, some k, some m =>
+      if (kind = "v" ∨ kind = "l") ∧ i ≤ j ∧ j ≤ l ∧ k ≤ m ∧ m ≤ l ∧ l ≤ 64 then itrcLine i j k m else "bad-op"
+    | _, _, _, _, _ => "bad-op"
+  | ["cycp", len, f1, s1, i, f2, s2, j] =>
+    match len.toNat?, f1.toNat?, s1.toNat?, i.toNat?, f2.toNat?, s2.toNat?, j.toNat? with
+    | some len, some f1, some s1, some i, some f2, some s2, some j =>
+      if f1 ≤ s1 ∧ s1 ≤ len ∧ i ≤ len ∧ f2 ≤ s2 ∧ s2 ≤ len ∧ j ≤ len ∧ len ≤ 64 then cycpLine len ⟨i, f1, s1⟩ ⟨j, f2, s2⟩ else "bad-op"
+    | _, _, _, _, _, _, _ => "bad-op"
+  | "cycx" :: kind :: len :: f :: s :: i :: ops =>
+    match len.toNat?, f.toNat?, s.toNat?, i.toNat? with
+    | some len, some f, some s, some i =>
+      if (kind = "v" ∨ kind = "l") ∧ f ≤ s ∧ len ≤ 64 ∧ 0 < ops.length ∧ ops.length ≤ min3 i f s ∧ max3 i f s + ops.length ≤ len then
+        match cycWalk (kind == "v") ops ⟨i, f, s⟩ [] with
+        | some tr => if tr.isEmpty then "-" else ",".intercalate tr
+        | none => "bad-op"
+      else "bad-op"
+    | _, _, _, _ => "bad-op"
+  | ["cycl", len, f, s, start, sgn, k] =>
+    match len.toNat?, f.toNat?, s.toNat?, start.toNat?, int? k with
+    | some len, some f, some s, some start, some k =>
+      if f < s ∧ s ≤ len ∧ len ≤ 64 ∧ f ≤ start ∧ start < s ∧ (sgn = "+" ∨ sgn = "-") ∧ ptrdiffTy.InRange k then
+        cyclLine ⟨start, f, s⟩ (sgn == "+") k
+      else "bad-op"
+    | _, _, _, _, _ => "bad-op"
+  | ["cycc", kind, len, f, s, i, f2, s2, j, k] =>
+    match len.toNat?, f.toNat?, s.toNat?, i.toNat?, f2.toNat?, s2.toNat?, j.toNat?, int? k with
+    | some len, some f, some s, some i, some f2, some s2, some j, some k =>
+      if (kind = "v" ∨ kind = "l") ∧ f < s ∧ s ≤ len ∧ f ≤ i ∧ i < s ∧ f2 ≤ s2 ∧ s2 ≤ len ∧ j ≤ len ∧ len ≤ 64 ∧ -1000 ≤ k ∧ k ≤ 1000 then
+        cyccLine (kind == "v") ⟨i, f, s⟩ ⟨j, f2, s2⟩ k
+      else "bad-op"
+    | _, _, _, _, _, _, _, _ => "bad-op"
+  | ["cycd", kind, len, i, f, s] =>
+    match len.toNat?, i.toNat?, f.toNat?, s.toNat? with
+    | some len, some i, some f, some s =>
+      if (kind = "v" ∨ kind = "l") ∧ f ≤ s ∧ s ≤ len ∧ i ≤ len ∧ len ≤ 64 then
+        let d := Cyc.default
+        let x : Cyc := ⟨i, f, s⟩
+        s!"def={b01 (d.it == 0)}{b01 (d.first == 0)}{b01 (d.second == 0)} eq={b01 (d.equal Cyc.default)} asg={showCyc x}"
+      else "bad-op"
+    | _, _, _, _ => "bad-op"
   | ["nb", ty, x, y] =>
     match tyOf ty, int? x, int? y with
     | some (t, false), some x, some y => if 32 ≤ t.bits ∧ t.InRange x ∧ t.InRange y then nbLine t x y else "bad-op"
@@ -198,6 +389,10 @@ def handle (toks : List String) : String :=
     match l.toNat? with
     | some l => if kind = "v" ∨ kind = "l" then adrLine l else "bad-op"
     | _ => "bad-op"
+  | ["mir", a, b] =>
+    match a.toNat?, b.toNat? with
+    | some a, some b => if a ≤ b ∧ b ≤ 16 then s!"e={if a = b then "-" else natList (mathIntRange a b)}" else "bad-op"
+    | _, _ => "bad-op"
   | ["mirc", n] =>
     match n.toNat? with
     | some n => if n ≤ 16 then s!"e={if n = 0 then "-" else natList (mathIntRangeCount n)}" else "bad-op"
